@@ -621,6 +621,20 @@ def _group_removal(ctx):
             isinstance(n.ast, ast.Delete)]
     loops = [n for n in graph.nodes if n.kind == 'for' and
              'self.apps' in N.txt(n.ast.iter)]
+    if not loops and dels:
+        # whether a group is in use is a fact about the instances - a
+        # pending instance references its group and holds nothing, so no
+        # count kept by the group itself can answer it
+        for node in dels:
+            ctx.fail('C05.6', func, node,
+                     'the mechanism this clause is about is gone: the '
+                     'deletion of a group from the registry is not decided '
+                     'by a walk over the instances that reference it (an '
+                     'instance that is pending references the group and '
+                     'holds no identity)',
+                     construct='registry deletion only on the not-in-use '
+                               'outcome')
+        return
     loop = K.one(loops, 'loop over self.apps in %s' % func.qualname)
     var = sorted(N.for_targets(loop))[-1]
     facts = N.must_facts(graph, nz)
